@@ -31,6 +31,9 @@ func run(seed int64, n int, dir string, _ []string) {
 	}
 	defer os.RemoveAll(root)
 
+	// corpus: cancellation at every ctx.Err() call of two-target UPDATE / DELETE statements, for every seed
+	dml.CancelCorpus(g, o, root)
+
 	stmts := 0
 	scanned := false
 	for seq := 0; stmts < n; seq++ {
@@ -42,12 +45,14 @@ func run(seed int64, n int, dir string, _ []string) {
 		// then for one sequence in six): the statement is re-run with the context failing at the 1st, 2nd, …
 		// ctx.Err() call until it completes; after every failed attempt nothing may have changed
 		if len(r.Tabs) >= 2 && (!scanned || g.Intn(8) == 0) {
-			var st, fallback *dml.Stmt
+			var st *dml.Stmt
+			want := []string{"deletem", "updatem"}[g.Intn(2)]
+			var fallback *dml.Stmt
 			for tries := 0; tries < 400 && st == nil; tries++ {
 				c := r.Gen(false)
 				if c != nil && (c.Kind == "deletem" || c.Kind == "updatem") && len(c.Targets) == 2 &&
 					r.Tab(c.Targets[0]).NextID <= 20 && r.Tab(c.Targets[1]).NextID <= 20 {
-					if c.Kind == "deletem" {
+					if c.Kind == want {
 						st = c
 					} else if fallback == nil {
 						fallback = c
@@ -61,21 +66,9 @@ func run(seed int64, n int, dir string, _ []string) {
 				scanned = true
 				saved := r.CPU
 				r.SetCPU(1)
-				for at := int64(1); at <= 400; at++ {
-					out := r.Exec(st, at)
-					stmts++
-					o.Count("fault:cancel_scan")
-					if out.Err == nil {
-						r.TwinExec(st)
-						o.Count("cancel_scan_completed")
-						break
-					}
-					o.NonTrivial(fmt.Sprintf("scan:%s:%d:E%d", st.Kind, at, dml.ErrNum(out.Err)))
-					if len(out.Failed) > 0 {
-						abandon = true
-						break
-					}
-				}
+				k, _, failed := r.ScanCancel(st, 20000)
+				stmts += k + 1
+				abandon = failed
 				r.SetCPU(saved)
 			}
 		}
